@@ -20,7 +20,8 @@ def vr0 (base : Buf) (d : Digest) (h : List Resp) : VR :=
 /-! ## Exactly once, given sources that hold (prefixes of) the object -/
 
 theorem ehOp_good (D : Bytes) (b : Buf) (d : Digest) (h : List Resp) (op : Op)
-    (hb : Good D b) (hd : d.size = D.length) (hh : GoodH D h) :
+    (hb : Good D b) (hd : d.size = D.length) (hh : GoodH D h)
+    (ht : (∃ off n, op = .readAt off n) → Tight b ∧ TightH h) :
     delivered (ehOp b d h op).result <+: window D op ∧
     (Complete (ehOp b d h op).result → delivered (ehOp b d h op).result = window D op) := by
   have hsrc : ∀ b', (b' = b ∨ Resp.repl b' ∈ h) → Good D b' := by
@@ -46,7 +47,12 @@ theorem ehOp_good (D : Bytes) (b : Buf) (d : Digest) (h : List Resp) (op : Op)
     | ok a =>
       obtain ⟨x, fl⟩ := a
       obtain ⟨_, b', hb', hf⟩ := r2 (x, fl) hr
-      obtain ⟨data, hw, hx⟩ := baseReadAt_ok hf
+      have htb : Tight b' := by
+        obtain ⟨t1, t2⟩ := ht ⟨off, n, rfl⟩
+        rcases hb' with rfl | hm
+        · exact t1
+        · exact t2 b' hm
+      obtain ⟨data, hw, hx⟩ := baseReadAt_ok htb hf
       have := whole_good (hsrc b' hb') hw
       subst this; subst hx
       simp [delivered, window]
@@ -128,7 +134,8 @@ theorem ehOp_good (D : Bytes) (b : Buf) (d : Digest) (h : List Resp) (op : Op)
 
 theorem ehOp_sealed (d : Digest) (D : Bytes) (b : Buf) (h : List Resp) (op : Op)
     (hd : ∀ x, d.valid x = true → x.length = d.size → x = D)
-    (hb : Sealed d D b) (hh : SealedH d D h) (hc : Complete (ehOp b d h op).result) :
+    (hb : Sealed d D b) (hh : SealedH d D h)
+    (ht : (∃ off n, op = .readAt off n) → Tight b ∧ TightH h) (hc : Complete (ehOp b d h op).result) :
     delivered (ehOp b d h op).result = window D op := by
   have hsrc : ∀ b', (b' = b ∨ Resp.repl b' ∈ h) → Sealed d D b' := by
     rintro b' (rfl | hm)
@@ -153,7 +160,12 @@ theorem ehOp_sealed (d : Digest) (D : Bytes) (b : Buf) (h : List Resp) (op : Op)
     | ok a =>
       obtain ⟨x, fl⟩ := a
       obtain ⟨_, b', hb', hf⟩ := r2 (x, fl) hr
-      obtain ⟨data, hw, hx⟩ := baseReadAt_ok hf
+      have htb : Tight b' := by
+        obtain ⟨t1, t2⟩ := ht ⟨off, n, rfl⟩
+        rcases hb' with rfl | hm
+        · exact t1
+        · exact t2 b' hm
+      obtain ⟨data, hw, hx⟩ := baseReadAt_ok htb hf
       have := whole_sealed hd (hsrc b' hb') hw
       subst this; subst hx
       simp [delivered, window]
